@@ -51,11 +51,17 @@ VAR_OPS = ["f32", "f64", "c64", "c128"]          # operator variants: ONE 6x6 ma
 VAR_DTYPES = {"f32": "float32", "f64": "float64", "c64": "complex64", "c128": "complex128"}
 # unrelated keyed draws straight from the backend: (shape, dtype); the shapes are those the routines draw on a 6x6
 # operator (start vectors (6,), Nystrom sketch (6, 2)) so that only key / dtype tell them apart
-RAW_OPS = {"raw6f64": ((6, ), "float64"), "raw62f32": ((6, 2), "float32")}
+RAW_OPS = {"raw6f64": ((6, ), "float64"), "raw62f32": ((6, 2), "float32"),
+           "raw50f64": ((5, 0), "float64"), "raw0f64": ((0, ), "float64")}      # the last two: EMPTY draws
 RAW_ACTS = [("raw6f64", 1), ("raw62f32", 1), ("raw6f64", 3)]
+# mode "empty": keyed draws of size zero (raw, and routines that run on a 0x0 operator and request an empty probe /
+# start block) - a keyed call leaves the global generator alone even when there is nothing to draw
+EMPTY_OP = "e0"
+EMPTY_ACTS = [("hutch_diag", EMPTY_OP, 1), ("hutch_trace", EMPTY_OP, 2), ("power_iteration", EMPTY_OP, 1),
+              ("raw_randn", "raw50f64", 1), ("raw_randn", "raw0f64", 2), ("raw_randn", "raw6f64", 1)]
 RAW = "raw_randn"
 ROUTINES_ALL = ROUTINES + [RAW]
-OPS_ALL = ["base"] + VAR_OPS + list(RAW_OPS)
+OPS_ALL = ["base"] + VAR_OPS + list(RAW_OPS) + [EMPTY_OP]
 N_BASE_ACTS = 1 + 1 + len(ROUTINES) * len(KEYS)
 SEEDS = ["s7"]
 REAL_SEEDS = {"s7": 7}
@@ -75,6 +81,10 @@ ASSUMPTIONS = [
     "variant modes fix one routine per behaviour (the full product alphabet is too large); behaviours of different "
     "routines meet in the chains.  Quick: every behaviour of length 3 is model-checked, 1 in 8 replayed; thorough: "
     "length 4, 1 in 8",
+    "mode 'empty' (keyed draws of size zero): raw np_fns.randn(5, 0, key) / randn(0, key), and the routines that run "
+    "on a 0x0 Dense operator on the unchanged tree (hutchinson_diag_estimate, trace with Hutch, power_iteration; "
+    "Lanczos / Arnoldi / SLQ on a 0x0 operator and rank-0 Nystrom sketches raise and are left out); all sequences "
+    "of 2 (thorough: 3) of these with user draws / seeds are replayed",
     "routines without a key parameter (randomized_svd, lobpcg; AdaNysPrecond / select_rank_adaptively in the "
     "direct checks) are called as they can be called: the model key is ignored; this satisfies 'same key => same "
     "output' only if the routine is deterministic outright",
@@ -165,6 +175,7 @@ def get_ops():
         dt = np.dtype(VAR_DTYPES[v])
         Mv = H.astype(dt) if dt.kind == "c" else S.astype(dt)
         _OPS["var6_" + v] = cola.PSD(cola.ops.Dense(Mv))
+    _OPS["empty0x0"] = cola.ops.Dense(np.zeros((0, 0)))
     return _OPS
 
 
@@ -172,6 +183,8 @@ def op_name(a, base=None):
     """Name (key of get_ops() / label in violations) of the operator of call action `a`."""
     if a["op"] == "base":
         return base
+    if a["op"] == EMPTY_OP:
+        return "empty0x0"
     return "var6_" + a["op"] if a["op"] in VAR_OPS else a["op"]
 
 
@@ -204,6 +217,7 @@ def actions():
     acts += [{"t": "call", "r": r, "op": "base", "k": k} for r in ROUTINES for k in KEYS]
     acts += [{"t": "call", "r": r, "op": v, "k": k} for r in ROUTINES for v in VAR_OPS for k in KEYS]
     acts += [{"t": "call", "r": RAW, "op": o, "k": k} for o, k in RAW_ACTS]
+    acts += [{"t": "call", "r": r, "op": o, "k": k} for r, o, k in EMPTY_ACTS if (o, k) not in RAW_ACTS or r != RAW]
     return acts
 
 
@@ -214,11 +228,13 @@ def modes(tier, depth):
     base_mod = 5 if tier == "quick" else 8
     var_len, var_mod = (3, 8) if tier == "quick" else (4, 8)     # 8 consecutive call indices keep every prefix covered
     out = [{"name": "base", "acts": list(range(1, N_BASE_ACTS + 1)), "maxlen": depth, "mod": base_mod, "res": sd % base_mod}]
-    raw = [i + 1 for i, a in enumerate(acts) if a.get("r") == RAW]
+    raw = [i + 1 for i, a in enumerate(acts) if a.get("r") == RAW and (a["op"], a["k"]) in RAW_ACTS]
     for r in ROUTINES:
         mine = [i + 1 for i, a in enumerate(acts) if a.get("r") == r and a.get("op") in VAR_OPS]
         out.append({"name": "variant:" + r, "acts": [1] + mine + raw, "maxlen": var_len, "mod": var_mod,
                     "res": (sd + len(out)) % var_mod})
+    empty = [i + 1 for i, a in enumerate(acts) if a["t"] == "call" and (a["r"], a["op"], a["k"]) in EMPTY_ACTS]
+    out.append({"name": "empty", "acts": [1, 2] + empty, "maxlen": 2 if tier == "quick" else 3, "mod": 1, "res": 0})
     return out
 
 
@@ -243,7 +259,7 @@ def do_action(a, A, fns):
         np.random.seed(REAL_SEEDS[a["s"]])
         return ""
     if a["op"] != "base" and a["r"] != RAW:
-        A = get_ops()["var6_" + a["op"]]
+        A = get_ops()[op_name(a)]
     with warnings.catch_warnings():
         warnings.simplefilter("ignore")
         with np.errstate(all="ignore"):
@@ -1142,9 +1158,9 @@ def run(tier):
         if len({tuple(ln["h"][:depth - 1]) for ln in lines}) != N_BASE_ACTS ** (depth - 1):
             raise tla.TLCError("printed interleavings do not cover all prefixes of length depth-1")
         for mi, md in enumerate(mode_list[1:], start=2):
-            if len({tuple(ln["h"][:var_len - 1]) for ln in vlines if ln["m"] == mi}) != len(md["acts"]) ** (var_len - 1):
+            if len({tuple(ln["h"][:md["maxlen"] - 1]) for ln in vlines if ln["m"] == mi}) != len(md["acts"]) ** (md["maxlen"] - 1):
                 raise tla.TLCError(f"printed interleavings of mode {md['name']} do not cover all prefixes of length "
-                                   f"{var_len - 1}")
+                                   f"{md['maxlen'] - 1}")
         mark("tlc_mc_rng")
         # (2) execution of the interleavings.  Variant modes first (the chains fork from this process while it is
         #     still pristine): behaviours of the different routines alternate within a chain
@@ -1336,6 +1352,8 @@ def run(tier):
         "interleavings_model_checked": sum(len(md["acts"]) ** j for md in mode_list for j in range(1, md["maxlen"] + 1)),
         "interleavings_from_tlc": n_inter, "alphabet": N_BASE_ACTS,
         "variant_modes": len(mode_list) - 1, "variant_alphabet_per_mode": len(mode_list[1]["acts"]),
+        "empty_draw_mode": {"actions": [act_str(acts[i - 1]) for i in mode_list[-1]["acts"]], "depth": mode_list[-1]["maxlen"],
+                            "interleavings_replayed": sum(1 for ln in vlines if ln["m"] == len(mode_list))},
         "variant_operator_dtypes": [VAR_DTYPES[v] for v in VAR_OPS], "variant_interleaving_depth": var_len,
         "variant_interleavings_model_checked": sum(len(md["acts"]) ** j for md in mode_list[1:]
                                                    for j in range(1, md["maxlen"] + 1)),
